@@ -95,9 +95,26 @@ def aborters(ctx, fx):
     A = nfa.Alphabet(calls=[("abort", is_abort), ("drain", is_drain_handles), ("iternext", nfa.callee_ends("Iterator::next"))], adts={"core::option::Option": "Option"})
     for f in fx.d["fns"]:
         b = ctx.body(fx, f)
-        if not any(is_abort(t) for _, t in b.normal_calls()):
-            continue
         if not any(is_drain_handles(t) for _, t in b.normal_calls()):
+            continue
+        if not any(is_abort(t) for _, t in b.normal_calls()):
+            # the combinator form: `self.tasks.drain(..).for_each(|task| task.abort())` — Iterator::for_each visits every
+            # element; the closure aborts the element it is given
+            fe = [t for _, t in b.normal_calls() if (t.get("callee") or "").endswith("Iterator::for_each") and ABORT_HANDLE in " ".join(t.get("argtys", []))]
+            good = False
+            if len(fe) == 1 and touches_list(fx, f, b):
+                src_ok = any(o.kind == "call" and is_drain_handles(b.call_at(o)) for o in b.origins(fe[0]["args"][0]))
+                clo = None
+                for a in fe[0].get("argtys", [])[1:]:
+                    if a.startswith("{closure:"):
+                        clo = fx.fn(a[len("{closure:"):-1])
+                if src_ok and clo is not None:
+                    cb = ctx.body(fx, clo)
+                    ab = [x for _, x in cb.normal_calls() if is_abort(x)]
+                    good = len(ab) == 1 and all(o.kind == "arg" and o.site == 2 for o in cb.origins(ab[0]["args"][0]))
+            if good:
+                drains = [t for _, t in b.normal_calls() if is_drain_handles(t)]
+                out[f["def"]] = {"fn": f, "viols": [], "removes": any((t.get("callee") or "").endswith("::drain") for t in drains)}
             continue
         if not touches_list(fx, f, b):
             continue
@@ -171,3 +188,59 @@ def creations(fx, co):
                 continue
         out.append(Creation(parent, pb, st.get("l"), dict(enumerate(ops))))
     return out
+
+
+def creation_instances(fx, co, depth=2):
+    """each way a timer future comes into being, followed up through crate-private synchronous helpers that create it on
+    behalf of a public API (`interval_with` -> `send_on_schedule(.., Schedule::Repeatedly)` -> async block):
+    [(api fn record, Creation, {capture index: enum variant / bool constant it is bound to})]"""
+    out = []
+    for cr in creations(fx, co):
+        frames = [(cr.api, cr.body, dict(cr.caps))]
+        # climb: while the creating function is private and only called from crate-local functions
+        work = [(cr.api, cr.body, dict(cr.caps), 0)]
+        while work:
+            api, body, caps, d = work.pop()
+            consts = {}
+            arg_caps = {}
+            for i, o in caps.items():
+                v = _const_of(body, o)
+                if v is not None:
+                    consts[i] = v
+                os_ = body.origins(o) if isinstance(o, dict) and o.get("k") in ("move", "copy") else set()
+                if len(os_) == 1 and next(iter(os_)).kind == "arg" and not next(iter(os_)).proj:
+                    arg_caps[i] = next(iter(os_)).site
+            callers = [(g, t) for g, _bi, t in graph.all_calls(fx, lambda t, _n=api["def"]: (t.get("resolved") or t.get("callee")) == _n)] if (api.get("vis") != "pub" and d < depth and arg_caps) else []
+            if callers:
+                for g, t in callers:
+                    gb = Body(g)
+                    caps2 = dict(caps)
+                    for i, k in arg_caps.items():
+                        if k - 1 < len(t["args"]):
+                            caps2[i] = t["args"][k - 1]
+                    # captures bound to constants stay bound; the others are re-expressed in the caller
+                    work.append((g, gb, {i: (o if i in arg_caps else caps[i]) for i, o in caps2.items()}, d + 1))
+                    out_consts = dict(consts)
+                continue
+            out.append((api, cr, consts))
+    return out
+
+
+def _const_of(body, o):
+    """the enum variant (fieldless literal) or bool constant an operand is bound to, if it is one"""
+    if not isinstance(o, dict):
+        return None
+    if o.get("k") == "const" and str(o.get("v")) in ("true", "false"):
+        return str(o.get("v"))
+    if o.get("k") in ("move", "copy"):
+        vs = set()
+        for x in body.origins(o, through_calls=False):
+            if x.kind == "agg" and not x.proj:
+                st = body.blocks[x.site[0]]["s"][x.site[1]]
+                if st["r"].get("ak") == "adt" and st["r"].get("variant") and not st["r"].get("ops"):
+                    vs.add(st["r"]["variant"])
+                    continue
+            vs.add(None)
+        if len(vs) == 1 and None not in vs:
+            return next(iter(vs))
+    return None
